@@ -32,8 +32,17 @@ namespace BitSerializer
 		{
 			SerializationContext context(serializationOptions);
 			typename TArchive::input_archive_type archive(input, context);
-			KeyValueProxy::SplitAndSerialize(archive, std::forward<T>(object));
-			archive.Finalize();
+			try
+			{
+				KeyValueProxy::SplitAndSerialize(archive, std::forward<T>(object));
+				archive.Finalize();
+			}
+			catch (...)
+			{
+				// An error that was deferred earlier (e.g. from a destructor of a scope) is the primary one
+				context.RethrowDeferredException();
+				throw;
+			}
 			context.OnFinishSerialization();
 		}
 	}
@@ -54,8 +63,17 @@ namespace BitSerializer
 		{
 			SerializationContext context(serializationOptions);
 			typename TArchive::input_archive_type archive(input, context);
-			KeyValueProxy::SplitAndSerialize(archive, std::forward<T>(object));
-			archive.Finalize();
+			try
+			{
+				KeyValueProxy::SplitAndSerialize(archive, std::forward<T>(object));
+				archive.Finalize();
+			}
+			catch (...)
+			{
+				// An error that was deferred earlier (e.g. from a destructor of a scope) is the primary one
+				context.RethrowDeferredException();
+				throw;
+			}
 			context.OnFinishSerialization();
 		}
 	}
@@ -76,8 +94,17 @@ namespace BitSerializer
 		{
 			SerializationContext context(serializationOptions);
 			typename TArchive::output_archive_type archive(output, context);
-			KeyValueProxy::SplitAndSerialize(archive, std::forward<T>(object));
-			archive.Finalize();
+			try
+			{
+				KeyValueProxy::SplitAndSerialize(archive, std::forward<T>(object));
+				archive.Finalize();
+			}
+			catch (...)
+			{
+				// An error that was deferred earlier (e.g. from a destructor of a scope) is the primary one
+				context.RethrowDeferredException();
+				throw;
+			}
 			context.OnFinishSerialization();
 		}
 	}
@@ -98,8 +125,17 @@ namespace BitSerializer
 		{
 			SerializationContext context(serializationOptions);
 			typename TArchive::output_archive_type archive(output, context);
-			KeyValueProxy::SplitAndSerialize(archive, std::forward<T>(object));
-			archive.Finalize();
+			try
+			{
+				KeyValueProxy::SplitAndSerialize(archive, std::forward<T>(object));
+				archive.Finalize();
+			}
+			catch (...)
+			{
+				// An error that was deferred earlier (e.g. from a destructor of a scope) is the primary one
+				context.RethrowDeferredException();
+				throw;
+			}
 			context.OnFinishSerialization();
 
 			// A failed write only sets the state of the stream (unless it has an exception mask), report it to the caller
